@@ -140,7 +140,7 @@ pub fn run(ctx: &Ctx) -> Report {
          remove(id) returns the route iff it was live, every copy set aside still answers all probes as when frozen; non-trivial = the history removes a live rule with a marker path/host and later inserts again, or a change-set updates a live rule; distinct by case hash",
     );
     rep.assume("operations that would break id uniqueness among live rules are skipped by the interpreter (stated precondition); per-layer count fields are not observable through the named API and are not asserted (O4)");
-    rep.add(run_part(ctx, "histories", ctx.cases(2_000, 150_000), || hist_case_strategy(40), check, &[]));
+    rep.add(run_part(ctx, "histories", ctx.cases(2_500, 100_000), || hist_case_strategy(40), check, &[]));
     rep
 }
 
